@@ -4,6 +4,7 @@ import Ivg.Lemmas.Grad64e
 import Ivg.Gen.Tie.GradientFields
 import Ivg.Gen.Tie.RendererFields
 import Ivg.Gen.Tie.Code.Clamp
+import Ivg.Gen.Tie.Code.Logger
 import Ivg.Obligations
 /-!
 # C15 — gradient paints
@@ -639,4 +640,6 @@ end Ivg.Props.C15
   Ivg.Gen.Tie.gradient_SpreadMethod_code_tie,
   Ivg.Gen.Tie.gradient_Transform_code_tie,
   Ivg.Gen.Tie.makeRange_code_tie,
-  Ivg.Gen.Tie.makeRange_code_tie_model]
+  Ivg.Gen.Tie.makeRange_code_tie_model,
+  -- regenerated code (translator): Gradient.Bounds is the fixed ±10^9 square
+  Ivg.Gen.Tie.gradient_Bounds_code_tie]
